@@ -170,7 +170,12 @@ def convert_to_lut(op, lut_values, lut_name):
     assert ifm.dtype == ofm.dtype
     lut_tensor = create_lut_tensor(op.name + "_values", lut_values, ofm.dtype)
     op.set_activation_lut(lut_tensor)
+    # Only the inputs have changed. The OFM shape must not be re-derived from the OFM tensor, which can be the
+    # (differently shaped) output of a bypassed memory only operator, e.g. a Reshape
+    ofm_shapes = op.ofm_shapes
     op.set_ifm_ofm_shapes()
+    if ofm_shapes:
+        op.ofm_shapes = ofm_shapes
     DebugDatabase.add_optimised(op, op)
     return op
 
